@@ -135,6 +135,9 @@ func c07LinesGen(r *rand.Rand) c07LineDoc {
 	d.blocks = append(d.blocks, "inl")
 	fmt.Fprintf(&sb, "fl: [{a: 1}, {a: %d}]\n", r.IntN(9))
 	d.blocks = append(d.blocks, "fl")
+	// a map with an entry whose key is the empty string
+	fmt.Fprintf(&sb, "em:\n  \"\": one%s\n  a: %s%s\n  b: [1, 2]\n", cm(), scal(), cm())
+	d.blocks = append(d.blocks, "em")
 	// anchored sequences (block and flow) with aliases of them further down
 	fmt.Fprintf(&sb, "ahosts: &ahosts\n  - alpha\n  - %s\naflags: &aflags [fast, %s]\nuses:\n  h: *ahosts\n  f: *aflags\n", scal(), scal())
 	d.blocks = append(d.blocks, "ahosts", "aflags", "uses")
@@ -172,6 +175,7 @@ func c07LineCase(w *mon.Worker, r *rand.Rand) mon.Result {
 	type upd struct {
 		expr string
 		cut  []string // top-level blocks that are (inside) T
+		same string   // an expression that must print the very same document (empty: none)
 	}
 	var u upd
 	seq := d.seqKeys[r.IntN(len(d.seqKeys))]
@@ -186,64 +190,77 @@ func c07LineCase(w *mon.Worker, r *rand.Rand) mon.Result {
 	if r.IntN(3) == 0 {
 		return c07MultiDelete(d, r)
 	}
-	switch r.IntN(24) {
+	switch r.IntN(29) {
+	case 24:
+		// the entry whose key is the empty string, addressed as such: writing the value it has changes nothing
+		u = upd{expr: `.em[""] = "one"`}
+	case 25:
+		u = upd{expr: `.em[""] |= .`}
+	case 26:
+		u = upd{expr: `.em[""] = "changed"`, cut: []string{"em"}, same: `.em |= with_entries(select(.key == "") .value = "changed")`}
+	case 27:
+		// a copy of a sequence is stored, then an element of the ORIGINAL is deleted; with the copy dropped again the
+		// document is what the plain delete makes of it
+		u = upd{expr: fmt.Sprintf(`.zz_b = .%s | del(.%s[0]) | del(.zz_b)`, seq, seq), cut: []string{seq}, same: fmt.Sprintf(`del(.%s[0])`, seq)}
+	case 28:
+		u = upd{expr: fmt.Sprintf(`.jobs as $j | .zz_b = $j | del(.jobs[] | select(.name == "jn1")) | del(.zz_b)`), cut: []string{"jobs"}, same: `del(.jobs[] | select(.name == "jn1"))`}
 	case 19:
 		// an element is appended and the appended element is deleted again: the document is what it was
-		u = upd{fmt.Sprintf(`.%s += ["zz_app"] | del(.%s[] | select(. == "zz_app"))`, seq, seq), nil}
+		u = upd{expr: fmt.Sprintf(`.%s += ["zz_app"] | del(.%s[] | select(. == "zz_app"))`, seq, seq), cut: nil}
 	case 20:
-		u = upd{fmt.Sprintf(`.%s += ["zz_a", "zz_b"] | del(.%s[%d]) | del(.%s[-1])`, seq, seq, d.seqLen[seq]+1, seq), nil}
+		u = upd{expr: fmt.Sprintf(`.%s += ["zz_a", "zz_b"] | del(.%s[%d]) | del(.%s[-1])`, seq, seq, d.seqLen[seq]+1, seq), cut: nil}
 	case 21:
 		// taking away what is not there: nothing changes, the anchor of the sequence included
-		u = upd{fmt.Sprintf(`.%s -= ["zz_not_there"]`, []string{"ahosts", "aflags", seq}[r.IntN(3)]), nil}
+		u = upd{expr: fmt.Sprintf(`.%s -= ["zz_not_there"]`, []string{"ahosts", "aflags", seq}[r.IntN(3)]), cut: nil}
 	case 22:
-		u = upd{`.ahosts -= ["alpha"]`, []string{"ahosts"}}
+		u = upd{expr: `.ahosts -= ["alpha"]`, cut: []string{"ahosts"}}
 	case 23:
-		u = upd{`.aflags -= ["fast"] | .ahosts += ["zz_n"]`, []string{"aflags", "ahosts"}}
+		u = upd{expr: `.aflags -= ["fast"] | .ahosts += ["zz_n"]`, cut: []string{"aflags", "ahosts"}}
 	case 15:
 		// a map of the document bound to a variable and edited THROUGH the variable before it is appended
-		u = upd{fmt.Sprintf(`.["%s"] as $t | .%s += [$t | .zz_t = 30]`, d.mapKeys[0], seq), []string{seq}}
+		u = upd{expr: fmt.Sprintf(`.["%s"] as $t | .%s += [$t | .zz_t = 30]`, d.mapKeys[0], seq), cut: []string{seq}}
 	case 16:
-		u = upd{fmt.Sprintf(`.["%s"] as $t | .zz_new = ($t | del(.image))`, d.mapKeys[0]), []string{"zz_new"}}
+		u = upd{expr: fmt.Sprintf(`.["%s"] as $t | .zz_new = ($t | del(.image))`, d.mapKeys[0]), cut: []string{"zz_new"}}
 	case 17:
 		// a merge whose LEFT operand is a map of the document, as the value of an assignment
-		u = upd{fmt.Sprintf(`.zz_eff = .["%s"] * {"image": "merged", "zz_m": 1}`, d.mapKeys[0]), []string{"zz_eff"}}
+		u = upd{expr: fmt.Sprintf(`.zz_eff = .["%s"] * {"image": "merged", "zz_m": 1}`, d.mapKeys[0]), cut: []string{"zz_eff"}}
 	case 18:
-		u = upd{fmt.Sprintf(`.zz_all = .%s *+ ["more"]`, seq), []string{"zz_all"}}
+		u = upd{expr: fmt.Sprintf(`.zz_all = .%s *+ ["more"]`, seq), cut: []string{"zz_all"}}
 	case 13:
 		// appending to a list rebuilds it from its elements: maps with complex keys come through intact
-		u = upd{`.cx += ["x"]`, nil}
+		u = upd{expr: `.cx += ["x"]`, cut: nil}
 	case 14:
-		u = upd{`.zz_copy = .cx`, []string{"zz_copy"}}
+		u = upd{expr: `.zz_copy = .cx`, cut: []string{"zz_copy"}}
 	case 10:
 		// an inline map of the document appended to a block list: the map it was read from keeps its line
-		u = upd{fmt.Sprintf(`.%s += .inl`, seq), []string{seq}}
+		u = upd{expr: fmt.Sprintf(`.%s += .inl`, seq), cut: []string{seq}}
 	case 11:
 		// a block map of the document appended to an inline list of inline maps
-		u = upd{fmt.Sprintf(`.fl += .["%s"]`, d.mapKeys[0]), []string{"fl"}}
+		u = upd{expr: fmt.Sprintf(`.fl += .["%s"]`, d.mapKeys[0]), cut: []string{"fl"}}
 	case 12:
-		u = upd{fmt.Sprintf(`.%s = .%s + [.inl] | .fl += [.["%s"]]`, seq, seq, d.mapKeys[0]), []string{seq, "fl"}}
+		u = upd{expr: fmt.Sprintf(`.%s = .%s + [.inl] | .fl += [.["%s"]]`, seq, seq, d.mapKeys[0]), cut: []string{seq, "fl"}}
 	case 7:
 		// a read one past the end of a sequence on the right-hand side: only `tail` changes
-		u = upd{fmt.Sprintf(`.tail = (.%s[%d] // "dflt")`, seq, d.seqLen[seq]), []string{"tail"}}
+		u = upd{expr: fmt.Sprintf(`.tail = (.%s[%d] // "dflt")`, seq, d.seqLen[seq]), cut: []string{"tail"}}
 	case 8:
 		// the same read inside a selection that matches nothing: nothing changes
-		u = upd{fmt.Sprintf(`(.%s | select(.[%d] == "nope") | .[0]) = "zz"`, seq, d.seqLen[seq]), nil}
+		u = upd{expr: fmt.Sprintf(`(.%s | select(.[%d] == "nope") | .[0]) = "zz"`, seq, d.seqLen[seq]), cut: nil}
 	case 9:
-		u = upd{fmt.Sprintf(`(.["%s"] | select(.zz_missing[0] == 1) | .zz) = 1`, mp), nil}
+		u = upd{expr: fmt.Sprintf(`(.["%s"] | select(.zz_missing[0] == 1) | .zz) = 1`, mp), cut: nil}
 	case 0:
-		u = upd{fmt.Sprintf(".%s += .%s | del(.%s[0])", seq, src, seq), []string{seq}}
+		u = upd{expr: fmt.Sprintf(".%s += .%s | del(.%s[0])", seq, src, seq), cut: []string{seq}}
 	case 1:
-		u = upd{fmt.Sprintf(".%s += [.%s] | del(.%s[0])", seq, src, seq), []string{seq}}
+		u = upd{expr: fmt.Sprintf(".%s += [.%s] | del(.%s[0])", seq, src, seq), cut: []string{seq}}
 	case 2:
-		u = upd{fmt.Sprintf(`.["%s"] += {"zz_env": "prod"}`, mp), []string{mp}}
+		u = upd{expr: fmt.Sprintf(`.["%s"] += {"zz_env": "prod"}`, mp), cut: []string{mp}}
 	case 3:
-		u = upd{fmt.Sprintf(`.["%s"].zz_new = 1`, mp), []string{mp}}
+		u = upd{expr: fmt.Sprintf(`.["%s"].zz_new = 1`, mp), cut: []string{mp}}
 	case 4:
-		u = upd{fmt.Sprintf(`.%s += ["x"] | .["%s"].zz = 2`, seq, mp), []string{seq, mp}}
+		u = upd{expr: fmt.Sprintf(`.%s += ["x"] | .["%s"].zz = 2`, seq, mp), cut: []string{seq, mp}}
 	case 5:
-		u = upd{fmt.Sprintf(`.%s = (.%s + [.%s]) | .%s |= reverse`, seq, seq, src, seq), []string{seq}}
+		u = upd{expr: fmt.Sprintf(`.%s = (.%s + [.%s]) | .%s |= reverse`, seq, seq, src, seq), cut: []string{seq}}
 	default:
-		u = upd{fmt.Sprintf(`del(.%s[0]) | .%s += ["y"] | del(.%s[0])`, seq, seq, seq), []string{seq}}
+		u = upd{expr: fmt.Sprintf(`del(.%s[0]) | .%s += ["y"] | del(.%s[0])`, seq, seq, seq), cut: []string{seq}}
 	}
 	res.Case = map[string]any{"text": d.text, "update": u.expr, "kind": "lines"}
 	res.Sig = fmt.Sprintf("lines|%x|%s", hashStr(d.text), u.expr)
@@ -260,6 +277,15 @@ func c07LineCase(w *mon.Worker, r *rand.Rand) mon.Result {
 		return res
 	}
 	res.Nontrivial = true
+	if u.same != "" {
+		other, e3, p3 := yqx.Eval(u.same, d.text, "yaml", "yaml")
+		res.Evals++
+		if e3 == nil && p3 == nil && other != got {
+			res.Verdict = mon.Violated
+			res.Detail = fmt.Sprintf("update `%s` must leave the document `%s` leaves\n--- first ---\n%s--- second ---\n%s", u.expr, u.same, clipStr(got, 1200), clipStr(other, 1200))
+			return res
+		}
+	}
 	if u.expr == `.cx += ["x"]` {
 		// every line of `yq .` is still there, in order, and exactly one line came in
 		bl, gl := strings.Split(base, "\n"), strings.Split(got, "\n")
